@@ -96,6 +96,13 @@ var c11Templates = []struct {
 	{"param-named-like-others-macro", `((fn [O-unless x] (O-unless x N)) (fn [a b] (+ a b)) 1)`},
 	{"let-fn-named-like-others-macro", `(let [O-twice (fn [x] (* x N))] (list (O-twice 2) (O-twice 3)))`},
 	{"own-macro-repeated", `(do (defmacro T-unless (fn [c a b] (list 'if c b a))) (list (T-unless false N 0) (do (spin 3) (T-unless true 0 N)) (T-unless false (+ N 1) 0)))`},
+	// the rest list of a variadic callback outlives the call (a future reads it later)
+	{"map-rest-future", `(map deref (map (fn [& xs] (future (do (spin 2) (first xs)))) (list N (+ N 1) (+ N 2))))`},
+	{"map-rest-closure", `(map (fn [c] (c)) (map (fn [& xs] (fn [] (first xs))) (list N (+ N 1) (+ N 2))))`},
+	// closures with the same text in every thread, different captured values
+	{"memoize-closure-same-text", `(let [k N] (let [m (memoize (fn [x] (+ x k)))] (list (m 1) (m 2) (m 1))))`},
+	{"memoize-closure-same-text2", `(let [k N m (memoize (fn [x y] (list x y k)))] (do (spin 2) (list (m 1 2) (m 1 2))))`},
+	{"redefine-own-global", `(do (def T-acc 0) (def T-acc (+ T-acc N)) (spin 2) (def T-acc (+ T-acc 1)) T-acc)`},
 	{"late-local-helper2", `((fn [] (do (def fut (future (do (sleep 2) (list (tmp-helper 1) (tmp-helper 3))))) (spin 2) (def tmp-helper (fn [x] (+ x N))) @fut)))`},
 }
 
